@@ -14,6 +14,7 @@ Verdict(r) ==
     [] r.kind = "enum" -> IF r.got = (IF r.raw < r.nitems THEN "label" ELSE "Unknown") THEN "ok" ELSE "enum-out-of-range-not-Unknown"
     [] r.kind = "wc" -> IF r.text = WatercareText(r.mode) /\ r.change = "ok" THEN "ok" ELSE "watercare-mode-rendering"
     [] r.kind = "rem" -> IF r.text = ReminderText(r.days) THEN "ok" ELSE "reminder-rendering"
+    [] r.kind = "remlist" -> IF r.text = "ok" THEN "ok" ELSE "reminder-list-without-valid-record-raises"
     [] OTHER -> "unknown-kind"
 Bad == { <<k, Verdict(Recs[k])>> : k \in { k \in 1..Len(Recs) : Verdict(Recs[k]) # "ok" } }
 ASSUME PrintT(<<"GVBAD", Bad, Len(Recs)>>)
